@@ -76,6 +76,10 @@ class IntSeg(Seg):
     def arr(self):
         if self._arr is None:
             e = ex()
+            w = concretize(self.width)
+            if not isinstance(w, int):
+                raise Unsupported("digits of an integer encoding with symbolic width")
+            self.width = self.n = w
             ds = [z3.Int(e.fresh_name("dig")) for _ in range(self.width)]
             for d in ds:
                 e.add(z3.And(d >= 0, d <= 255))
@@ -104,7 +108,7 @@ class IntSeg(Seg):
         return "int!" if self._arr is None else _b.str(self._arr)
 
     def __repr__(self):
-        return "IntSeg(%s,%d,%s)" % (self.v, self.width, self.order)
+        return "IntSeg(%s,%s,%s)" % (getattr(self.v, "t", self.v), getattr(self.width, "t", self.width), self.order)
 
 
 _CONC_ARRAYS: dict = {}
@@ -142,7 +146,20 @@ def norm(segs, solver=True):
     out = []
     for s in segs:
         if isinstance(s, IntSeg):
+            w = concretize(s.width) if solver else s.width
+            if isinstance(w, int) and w == 0:
+                continue
+            if out and s.order == "big" and _is_zero_fill(out[-1]):
+                # zeros(k) || BE(v, n) = BE(v, k + n)
+                z = out.pop()
+                s = IntSeg(s.v, simp(z.n + s.width), "big")
+                if solver:
+                    s.width = s.n = concretize(s.width)
             out.append(s)
+            continue
+        if out and isinstance(out[-1], IntSeg) and out[-1].order == "little" and _is_zero_fill(s):
+            p = out[-1]
+            out[-1] = IntSeg(p.v, simp(p.width + s.n), "little")
             continue
         n = simp(s.n)
         if isinstance(n, int):
@@ -179,6 +196,15 @@ def norm(segs, solver=True):
                 if n is not s.n or off is not s.off:
                     out[i] = Seg(s.arr, off, n, s.conc)
     return out
+
+
+def _is_zero_fill(seg):
+    if isinstance(seg, IntSeg):
+        return False
+    if seg.conc is not None:
+        m = seg.materialized()
+        return m is not None and m == _b.bytes(_b.len(m))
+    return seg.arr is not None and seg.arr.eq(ZERO)
 
 
 def rebase(segs):
@@ -309,12 +335,12 @@ def rope_eq(a, b):
 def _intseg_eq(x, y):
     """equality of two whole segments when at least one is an abstract integer encoding; None = not applicable"""
     if isinstance(x, IntSeg) and isinstance(y, IntSeg):
-        if x.width == y.width and x.order == y.order:
+        if x.order == y.order and provable(x.width == y.width):
             return x.v == y.v
         return None
     a, o = (x, y) if isinstance(x, IntSeg) else (y, x)
     m = o.materialized()
-    if m is not None and _b.len(m) == a.width:
+    if m is not None and isinstance(a.width, int) and _b.len(m) == a.width:
         return a.v == _b.int.from_bytes(m, a.order)
     return None
 
@@ -411,7 +437,7 @@ class SymBytes:
             n = simp(bnd - a)
             rel = simp(a - pos)
             if isinstance(s, IntSeg):
-                if isinstance(rel, int) and rel == 0 and isinstance(n, int) and n == s.width:
+                if isinstance(rel, int) and rel == 0 and (n is s.width or (isinstance(n, int) and n == s.width) or provable(n == s.width)):
                     out.append(s)
                     pos = end
                     continue
@@ -753,6 +779,11 @@ def int_to_rope(v, length, byteorder="big", signed=False):
     """int.to_bytes over a possibly symbolic value"""
     length = concretize(length)
     if not isinstance(length, int):
+        ml = ex().scratch.get("minlen", {})
+        key = length.lin if isinstance(length, SymInt) else None
+        if key in ml and isinstance(v, SymInt) and ml[key] == (v.lin, v.k) and not signed:
+            # v.to_bytes(minimal byte length of v): never overflows; the length stays symbolic
+            return SymBytes([IntSeg(v, length, byteorder)])
         raise Unsupported("to_bytes with symbolic length")
     if isinstance(v, int):
         return SymBytes([cseg(v.to_bytes(length, byteorder, signed=signed))]) if length else SymBytes([])
